@@ -161,6 +161,39 @@ CHECKS = [
               'order-preserving map. Tie: real sobolev_space / sobolev_time / estimate_* with token seminorms on real meshes. '
               'Accuracy for smooth non-polynomial residuals is measured by the search.',
          note='process scheduling modelled as "map preserves order"; accuracy of the seminorm rules for non-polynomial residuals is not a theorem'),
+    dict(id='C17', design_ref='DESIGN.md section 6 / C17', category='proof',
+         technique='Lean 4 theorems over all worker schedules and all cache histories + token-leaf execution of the real assembly paths and real cache files',
+         text='Proof of the path logic: inline, serial and pool-by-columns (for EVERY valid schedule: any worker count, chunk '
+              'size, assignment and completion order) equal the table bil(trial_j, test_i) provided bil vanishes on acausal '
+              'pairs; threshold and schedule do not occur in the result; the load-vector paths likewise; for every history of '
+              'calls, failing saves, crashes, truncations and removals against one directory every call returns the pure '
+              'result, given the key discipline; the file name is injective on (curve, tests, trials) for an injective hash '
+              'and prefix-free repr -- and NOT on the operator configuration (negation witness = known finding F7). Tie: real '
+              'bilform_matrix / linform_vector with token leaves, worker counts 1..16, both sides of the 100-entry threshold, '
+              'real cache files damaged in every byte-length class, compared bitwise and with the model.',
+         note='fork semantics, imap order, np.save/np.load and md5 collision-freeness are assumptions'),
+    dict(id='C18', design_ref='DESIGN.md section 6 / C18', category='proof',
+         technique='Lean 4 theorems (polygons over Q, circle over R, piece assignment/inheritance, three-per-slab with negation witness for the unrepaired guard) + exact correspondence of curves and MeshParametrized',
+         text='Partial. Proved: every axis-parallel polygon the constructor accepts is unit speed on each piece, piece length = '
+              'side length, continuous at break points, closed; evaluation agrees with every piece whose closed range '
+              'contains the parameter; the circle has unit speed and period 2 pi; each root gets the piece containing it, every '
+              'descendant under every operation stays on its piece; with the repaired guard every time cross-section of a '
+              'closed curve has >= 3 elements for every time grid, preserved by all refinements, so two distinct elements '
+              'touch in at most one end point; the unrepaired guard fails (kernel-checked witness; fixed in /repo). Tie: the '
+              'shipped curves, random accepted polygons and MeshParametrized on all curves x time grids x space grids followed '
+              'by random histories, compared exactly.',
+         note='totality of the guard refinement (initParam never errors) is exercised, not proved; the circle is compared with rational stand-ins for pi; arc length of general float polygons only sampled by the constructor'),
+    dict(id='C20', design_ref='DESIGN.md section 6 / C20', category='proof',
+         technique='translator (child order, sign patterns, sharing factor from source) + Lean 4 theorems + exact execution of the real estimators on synthetic operators',
+         text='Proof over constants regenerated from the source on every run: the four virtual children are [LL, LR, UL, UR] and '
+              'tile the parent; the three patterns are the time-split, space-split and checkerboard functions; np.repeat(.,4) '
+              'is the piecewise-constant extension; the hierarchical indicator is |<rhs - V Phi, psi>|^2 / <V psi, psi> per '
+              'psi with the checkerboard shared half-half, non-negative, and fails only on a non-positive scaling; h-h/2 '
+              'squared is d^T A d with A d = rhs - A P Phi and vanishes when P Phi solves the fine problem; Prolongate returns '
+              'the value of the unique coarse ancestor (parent-table invariant preserved by every mesh operation). Tie: real '
+              'estimators with the module np replaced by an exact stand-in, synthetic rational leaves, compared with the model '
+              'and with the geometric definition; search against really bisected meshes with single-pair evaluations.',
+         note='completeness of the exact solver (succeeds for every regular matrix) is not proved (it is self-checking); float solve accuracy is outside the model'),
 ]
 for p in _PENDING:
     if p not in [c['id'] for c in CHECKS]:
